@@ -57,6 +57,7 @@ class World(object):
         self.cls = None
         self.nested_target = None
         self.recording_ids = []
+        self.shared = {}        # share key -> the one object instance that several calls pass as argument
 
     def cur(self):
         return getattr(self.tl, 'cur', None)
@@ -243,6 +244,14 @@ def build_class(prog, rec, W, decorated=True):
     for i, d in enumerate(prog['outs']):
         ns['out%d' % i] = mk_out(i, d)
 
+    def arg_a(s):
+        # calls marked with the same 'share' key pass the very same object instance (a config list built once)
+        if s.get('share') is None:
+            return V.build(s['a'])
+        if s['share'] not in W.shared:
+            W.shared[s['share']] = V.build(s['a'])
+        return W.shared[s['share']]
+
     def call_step(inst, s):
         W.tl.cur = s
         try:
@@ -251,14 +260,14 @@ def build_class(prog, rec, W, decorated=True):
                 if d['kind'] == 'property':
                     v = getattr(inst, 'in%d' % s['i'])
                 elif s.get('usekw') == 'both':
-                    items = [('a', V.build(s['a'])), ('b', V.build(s['b']))]
+                    items = [('a', arg_a(s)), ('b', V.build(s['b']))]
                     if s.get('kwrev'):
                         items.reverse()
                     v = getattr(inst, 'in%d' % s['i'])(**dict(items))
                 elif s.get('usekw'):
-                    v = getattr(inst, 'in%d' % s['i'])(V.build(s['a']), b=V.build(s['b']))
+                    v = getattr(inst, 'in%d' % s['i'])(arg_a(s), b=V.build(s['b']))
                 else:
-                    v = getattr(inst, 'in%d' % s['i'])(V.build(s['a']), V.build(s['b']))
+                    v = getattr(inst, 'in%d' % s['i'])(arg_a(s), V.build(s['b']))
             else:
                 oargs = tuple(V.build(x) for x in ([s['a']] + list(s.get('more', []))))[s.get('skip_first', 0):]
                 okw = dict((k, V.build(x)) for k, x in s.get('kw', []))
